@@ -1090,7 +1090,8 @@ impl<'info> Evaluator {
         body: Rc<BodyForm>,
     ) -> Result<Rc<BodyForm>, CompileErr> {
         if let BodyForm::Call(l, vec, None) = body.borrow() {
-            if is_apply_atom(vec[0].to_sexp()) {
+            // (a PROGRAM ENV): anything else is not an apply this can chase.
+            if vec.len() == 3 && is_apply_atom(vec[0].to_sexp()) {
                 if let Ok(run_program) = dequote(l.clone(), vec[1].clone()) {
                     return self.continue_apply(allocator, visited, vec[2].clone(), run_program);
                 }
